@@ -8,7 +8,7 @@ Sizes (radius, length, height, radii, half_lengths) are > 0 by domain D.
 """
 import ast
 
-from ..core.astutil import u, call_name, const, index_elts, dot_args, ncmp, compare_triples
+from ..core.astutil import u, call_name, const, index_elts, dot_args, ncmp, compare_triples, resolved
 from ..core.index import AnalysisError
 
 G = "distance3d.geometry"
@@ -117,6 +117,8 @@ class SignAlign:
                 for e in node.args[0].elts:
                     comps.append(self.comp(e, p))
                 return comps
+            if short == "zeros" and node.args and isinstance(const(node.args[0]), int):
+                return [[T(0, "c")] for _ in range(const(node.args[0]))]
             if short in ("norm_vector", "copy"):
                 return self.vec(node.args[0], p)        # positive scaling (or zero)
             if short == "sign" and node.args:
@@ -227,11 +229,13 @@ class SignAlign:
             self._facts_from_test(st.test, b, False)
             outa = self._block(st.body, [a])
             outb = self._block(st.orelse, [b])
-            if self._projection_compare(st.test):
+            info = _proj_info(st.test, self.dname)
+            if info is not None:
+                rim_on_true, cand, k, hname = info
+                for q in outa:
+                    q.env["__proj"] = ("rim" if rim_on_true else "apex", cand, k, hname, st)
                 for q in outb:
-                    for s2 in st.orelse:
-                        if isinstance(s2, ast.Assign) and isinstance(s2.targets[0], ast.Name):
-                            q.env["__is_apex_" + s2.targets[0].id] = True
+                    q.env["__proj"] = ("apex" if rim_on_true else "rim", cand, k, hname, st)
             return outa + outb
         if isinstance(st, ast.Assign) and len(st.targets) == 1:
             t = st.targets[0]
@@ -239,6 +243,9 @@ class SignAlign:
                 return [p]       # the definition of the local direction itself
             if isinstance(t, ast.Name):
                 val = st.value
+                p.env.pop("__alias_" + t.id, None)
+                if isinstance(val, ast.Name):
+                    p.env["__alias_" + t.id] = p.env.get("__alias_" + val.id, val.id)
                 negate = False
                 if isinstance(val, ast.BinOp) and isinstance(val.op, ast.Add):
                     for c, o in ((val.left, val.right), (val.right, val.left)):
@@ -423,7 +430,7 @@ def r_signalign(idx, rep, rule="R-SIGNALIGN"):
         sa = SignAlign(f, dname, n)
         paths = sa.run()
         if name.endswith("cone"):
-            _check_cone(idx, rep, rule, f, dname)
+            _cone_choice(rep, rule, f, sa, paths)
         npaths = 0
         for p in paths:
             if p.ret is None:
@@ -445,7 +452,7 @@ def r_signalign(idx, rep, rule="R-SIGNALIGN"):
                 rep.unknown(rule, key, where, "components of `%s` not tracked" % u(local))
                 rep.error("R-SIGNALIGN cannot track `%s` in %s" % (u(local), f.key))
                 continue
-            if name.endswith("cone") and _is_apex(local, p):
+            if name.endswith("cone") and p.env.get("__proj") and p.env["__proj"][0] == "apex" and _apex_like(v, p.env["__proj"][2]):
                 rep.ok(rule, key, where, "apex candidate (selected by the projection comparison)")
                 continue
             bad = sa.aligned(v, p)
@@ -488,48 +495,69 @@ def _local_vertex(ret, p):
     return None
 
 
-def _is_apex(local, p):
-    return isinstance(local, ast.Name) and bool(p.env.get("__is_apex_" + local.id, False))
+def _proj_info(test, dname):
+    """dot(D, cand) >= D[k] * h  (either orientation)  ->  (rim point is taken when the test is TRUE, cand, k, h name)"""
+    n = ncmp(test)
+    if n is None:
+        return None
+    op, a, b = n                      # a <= b  or  a < b
+    if op not in ("<=", "<"):
+        return None
+    rim_on_true = True
+    d = dot_args(b)
+    if d is None or dname not in {u(x) for x in d}:
+        d = dot_args(a)
+        if d is None or dname not in {u(x) for x in d}:
+            return None
+        a, b = b, a                   # the projection of the rim point is on the small side: the rim is taken when the test is false
+        rim_on_true = False
+    cand = [u(x) for x in d if u(x) != dname]
+    if len(cand) != 1 or not (isinstance(a, ast.BinOp) and isinstance(a.op, ast.Mult)):
+        return None
+    for x, y in ((a.left, a.right), (a.right, a.left)):
+        if isinstance(x, ast.Subscript) and u(x.value) == dname and isinstance(const(x.slice), int):
+            return rim_on_true, cand[0], const(x.slice), u(y)
+    return None
 
 
-def _check_cone(idx, rep, rule, f, dname):
-    """if dot(D, cand1) >= D[k] * h: point = cand1 else point = [0, 0, h]  — the larger projection wins"""
-    found = False
-    for st in ast.walk(f.node):
-        if isinstance(st, ast.If) and ncmp(st.test) is not None:
-            op, a, b = ncmp(st.test)      # a <= b  or a < b
-            rim_on_true = True
-            d = dot_args(b)
-            if d is None or dname not in {u(x) for x in d}:
-                d = dot_args(a)
-                if d is None or dname not in {u(x) for x in d}:
-                    continue
-                a, b = b, a               # now b is the projection of the rim point; the test reads  dot <= rhs
-                rim_on_true = False
-            names = {u(x) for x in d}
-            cand1 = [x for x in names if x != dname]
-            # a must be D[k] * h
-            ok_rhs = isinstance(a, ast.BinOp) and isinstance(a.op, ast.Mult) and any(
-                isinstance(x, ast.Subscript) and u(x.value) == dname for x in (a.left, a.right))
-            k = None
-            hname = None
-            if ok_rhs:
-                for x, y in ((a.left, a.right), (a.right, a.left)):
-                    if isinstance(x, ast.Subscript) and u(x.value) == dname:
-                        k = const(x.slice)
-                        hname = u(y)
-            tb = [s for s in st.body if isinstance(s, ast.Assign)]
-            eb = [s for s in st.orelse if isinstance(s, ast.Assign)]
-            if not rim_on_true:
-                tb, eb = eb, tb           # the rim point must be taken where its projection is the larger one
-            good = bool(cand1) and ok_rhs and len(tb) == 1 and len(eb) == 1 and u(tb[0].value) == cand1[0]
-            if good:
-                apex = eb[0].value
-                good = isinstance(apex, ast.Call) and call_name(apex) == "np.array" and isinstance(apex.args[0], ast.List) and \
-                    [u(e) for e in apex.args[0].elts] == [("0.0" if i != k else hname) for i in range(3)]
-            found = True
-            rep.check(good and op in ("<=", "<"), rule, f.key + "|larger projection wins", "%s:%d" % (f.module.relpath, st.lineno),
-                      "the cone must return the rim point when dot(d, rim) >= d[%s] * height (= dot(d, apex)) and the apex otherwise; found test `%s` "
-                      "selecting `%s` / `%s`" % (k, u(st.test), u(tb[0].value) if tb else "?", u(eb[0].value) if eb else "?"))
-    if not found:
+def _apex_like(v, k):
+    """components: zero everywhere except a positive constant at k"""
+    if not isinstance(v, list) or k >= len(v):
+        return False
+    for i, c in enumerate(v):
+        for t in c:
+            if i == k:
+                if not (t.base == "c" and t.sgn == 1):
+                    return False
+            elif t.sgn != 0:
+                return False
+    return True
+
+
+def _cone_choice(rep, rule, f, sa, paths):
+    """the candidate with the LARGER projection on the direction is returned: on the paths where dot(D, rim) >= D[k] * h holds the rim
+    point, on the others the apex [0, 0, h] — however the selection is written (assignment in two arms, early returns)"""
+    tests = {}
+    for p in paths:
+        pr = p.env.get("__proj")
+        if p.ret is None or pr is None:
+            continue
+        side, cand, k, hname, st = pr
+        local = _local_vertex(p.ret, p)
+        v = sa.vec(local, p) if local is not None and local != "zero" else None
+        apex = _apex_like(v, k)
+        if apex:
+            node = resolved(f.node, local) if isinstance(local, ast.Name) else local
+            if isinstance(node, ast.Call) and call_name(node) == "np.array" and node.args and isinstance(node.args[0], ast.List):
+                apex = [u(e) for e in node.args[0].elts] == [("0.0" if i != k else hname) for i in range(len(node.args[0].elts))]
+        rim = isinstance(local, ast.Name) and cand in (local.id, p.env.get("__alias_" + local.id))
+        ok = (side == "rim" and rim) or (side == "apex" and apex)
+        tests.setdefault(st, []).append((ok, side, u(local) if isinstance(local, ast.AST) else str(local)))
+    if not tests:
         rep.error("R-SIGNALIGN: projection comparison of the cone not found")
+    for st, res in tests.items():
+        bad = [r for r in res if not r[0]]
+        rep.check(not bad, rule, f.key + "|larger projection wins", "%s:%d" % (f.module.relpath, st.lineno),
+                  "the cone must return the rim point when dot(d, rim) >= d[k] * height (= dot(d, apex)) and the apex [0, 0, height] otherwise; under the test `%s` "
+                  "the side where the %s has the larger projection returns `%s`" % (u(st.test), bad[0][1] if bad else "", bad[0][2] if bad else ""),
+                  "%d return paths" % len(res))
